@@ -33,23 +33,27 @@ package http1
 //@ ghost var rejecting bool
 //@ ghost var closeSet bool
 //@ ghost var notRunningSeen bool
+//@ ghost var runningChecked bool
 
 //@ func Server.Serve(s, c, conn) err
 //@   props C19, C18, C01, C03
-//@   requires phase == 0 && !rejecting && !closeSet && !notRunningSeen
+//@   requires phase == 0 && !rejecting && !closeSet && !notRunningSeen && !runningChecked
 //@   assert @C01 before ServeHTTP: phase == 0 && err == nil && !rejecting
 //@   ghostset after ServeHTTP: phase = 2
 //@   ghostset before writeErrorResponse: rejecting = true
 //@   ghostset after SetConnectionClose: closeSet = true
 //@   ghostset after SetCanonical: closeSet = closeSet || sameSlice(arg2, bytestr.StrClose)
 //@   ghostset after IsRunning: notRunningSeen = !result
+//@   ghostset after IsRunning#0: runningChecked = true
 //@   assert @C01 before writeResponse: (phase == 2 || rejecting) && phase != 3
 //@   assert @C03 before writeResponse: rejecting ==> closeSet && phase == 0
 //@   assert @C18 before writeResponse: notRunningSeen ==> closeSet
+//@   assert @C18 before writeResponse: rejecting || runningChecked
 //@   ghostset after writeResponse: phase = 3
 //@   assert @C01 before ResetWithoutConn: phase == 3 && !rejecting
 //@   ghostset after ResetWithoutConn: phase = 0
 //@   ghostset after ResetWithoutConn#0: closeSet = false
+//@   ghostset after ResetWithoutConn: runningChecked = false
 //@   top-ensures @C03 rejecting ==> phase == 3
 //@   replay-import context
 //@   replay-import sync
@@ -68,7 +72,7 @@ package http1
 //@   loop 0:
 //@     invariant traceOpen == 0 && evDepth == 0 && !traceStarted
 //@     invariant phase == 0 && !rejecting && !closeSet
-//@     invariant @C18 !notRunningSeen
+//@     invariant @C18 !notRunningSeen && !runningChecked
 
 //@ func Server.Serve$1()
 //@   loop 0:
